@@ -848,6 +848,179 @@ pub fn cmd_migrate_replay(args: &HashMap<String, String>) -> i32 {
     }
 }
 
+
+// ---------------------------------------------------------------------------
+// BTreeNode (C04 / C14): behaviours of spec/BTreeNode.tla replayed with the tree SHAPE compared
+
+fn bt_key(k: u64) -> Vec<u8> {
+    // order-preserving: four digits, then a tail whose length varies (up to beyond the one-byte length encoding)
+    let mut key = format!("{:04}", k).into_bytes();
+    let tail = if k % 31 == 0 { 262 } else { ((k % 7) * 9) as usize };
+    key.extend(std::iter::repeat(b'a' + (k % 23) as u8).take(tail));
+    key
+}
+
+fn bt_rank(key: &[u8]) -> i64 {
+    std::str::from_utf8(&key[..key.len().min(4)]).ok().and_then(|s| s.parse::<i64>().ok()).unwrap_or(-1)
+}
+
+/// `pdbh btree-replay --in F --out F [--variant rc|lz4]`
+pub fn cmd_btree_replay(args: &HashMap<String, String>) -> i32 {
+    let input = std::fs::read_to_string(&args["in"]).expect("read");
+    let variant = args.get("variant").cloned().unwrap_or_default();
+    let root = scratch_root();
+    let mut outf = std::io::BufWriter::new(std::fs::File::create(&args["out"]).unwrap());
+    let mut nviol = 0;
+    for (idx, line) in input.lines().enumerate() {
+        if line.trim().is_empty() {
+            continue
+        }
+        let b: J = serde_json::from_str(line).unwrap();
+        let steps = b["steps"].as_array().unwrap();
+        let dir = fresh_dir(&root, &format!("bt{idx}"));
+        let mut col = ColumnOptions { btree_index: true, ..Default::default() };
+        if variant == "rc" {
+            col.ref_counted = true;
+            col.preimage = true;
+        }
+        if variant == "lz4" {
+            col.compression = CompressionType::Lz4;
+        }
+        let opts = admin_options(&dir, &[col]);
+        let mut viol: Vec<J> = Vec::new();
+        let compared = std::cell::Cell::new(0usize);
+        let r: Result<(), String> = (|| {
+            let mut db = Db::open_or_create(&opts).map_err(|e| format!("create: {e}"))?;
+            let mut counts: HashMap<u64, u32> = HashMap::new();
+            let shape_of = |db: &Db| -> Result<(J, u32), String> {
+                let d = db.verif_dump(0).map_err(|e| format!("dump: {e}"))?;
+                let (rt, depth) = d.btree.unwrap_or((0, 0));
+                if rt == 0 {
+                    return Ok((json!({"s": [], "c": []}), depth))
+                }
+                let mut budget = 100_000usize;
+                match crate::dump::shape_node(&d, rt, &bt_rank, &mut budget) {
+                    Some(s) => Ok((s, depth)),
+                    None => Err("a node of the stored tree cannot be decoded".into()),
+                }
+            };
+            for (i, st) in steps.iter().enumerate() {
+                let k = st["k"].as_u64().unwrap();
+                if st["a"] == "asc" || st["a"] == "desc" {
+                    // canonical load: k keys in ascending (2, 4, ..) or descending (top, top-2, ..) order, one commit each
+                    let top = st["top"].as_u64().unwrap_or(0);
+                    for j in 1..=k {
+                        let kk = if st["a"] == "asc" { 2 * j } else { top - 2 * (j - 1) };
+                        let key = bt_key(kk);
+                        let v = if variant == "rc" { key.clone() } else { format!("v{kk}").into_bytes() };
+                        *counts.entry(kk).or_insert(0u32) += 1;
+                        catch(|| db.commit_changes(vec![(0u8, parity_db::Operation::Set(key, v))])).map_err(|p| format!("load: panic in commit: {p}"))?.map_err(|e| format!("load: commit: {e}"))?;
+                        catch(|| db.process_commits()).map_err(|p| format!("load: panic in process_commits: {p}"))?.map_err(|e| format!("load: process_commits: {e}"))?;
+                        if j % 16 == 0 {
+                            db.flush_logs().map_err(|e| format!("{e}"))?;
+                            for _ in 0..8 {
+                                while enact_one_guarded(&db).map_err(|e| format!("{e}"))? {}
+                            }
+                            db.clean_logs().map_err(|e| format!("{e}"))?;
+                        }
+                    }
+                    db.flush_logs().map_err(|e| format!("{e}"))?;
+                    for _ in 0..8 {
+                        while enact_one_guarded(&db).map_err(|e| format!("{e}"))? {}
+                    }
+                    db.clean_logs().map_err(|e| format!("{e}"))?;
+                    let (shape, depth) = catch(|| shape_of(&db)).map_err(|p| format!("load: panic in dump: {p}"))??;
+                    compared.set(compared.get() + 1);
+                    if shape != st["shape"] || depth as u64 != st["depth"].as_u64().unwrap() {
+                        return Err(format!("{} load of {k} keys: tree shape differs from the specification's: depth {} / {}; implementation {} specification {}",
+                            st["a"].as_str().unwrap(), depth, st["depth"], shape, st["shape"]))
+                    }
+                    continue
+                }
+                let key = bt_key(k);
+                let ops = if st["a"] == "ins" {
+                    let mut v = format!("v{k}:{i}").into_bytes();
+                    if variant == "rc" {
+                        v = key.clone();
+                    }
+                    *counts.entry(k).or_insert(0u32) += 1;
+                    vec![(0u8, parity_db::Operation::Set(key, v))]
+                } else {
+                    // (counting column: the key goes when its count reaches zero - one dereference per earlier Set)
+                    let n = if variant == "rc" { counts.remove(&k).unwrap_or(0).max(1) } else { 1 };
+                    (0..n).map(|_| (0u8, parity_db::Operation::Dereference(key.clone()))).collect()
+                };
+                catch(|| db.commit_changes(ops)).map_err(|p| format!("step {}: panic in commit: {p}", i + 1))?.map_err(|e| format!("step {}: commit: {e}", i + 1))?;
+                catch(|| db.process_commits()).map_err(|p| format!("step {}: panic in process_commits: {p}", i + 1))?.map_err(|e| format!("step {}: process_commits: {e}", i + 1))?;
+                // the structural dump reads the files: the shape is compared after every `every`-th operation, when
+                // the records were applied (in between the tree lives partly in the log overlay and later
+                // operations are planned against that)
+                let every = 1 + idx % 3;
+                if i % every != every - 1 && i + 1 != steps.len() {
+                    continue
+                }
+                db.flush_logs().map_err(|e| format!("{e}"))?;
+                for _ in 0..8 {
+                    while enact_one_guarded(&db).map_err(|e| format!("{e}"))? {}
+                }
+                db.clean_logs().map_err(|e| format!("{e}"))?;
+                if i % 41 == 40 {
+                    drop(db);
+                    db = Db::open(&opts).map_err(|e| format!("step {}: reopen: {e}", i + 1))?;
+                }
+                let (shape, depth) = catch(|| shape_of(&db)).map_err(|p| format!("step {}: panic in dump: {p}", i + 1))??;
+                compared.set(compared.get() + 1);
+                if shape != st["shape"] || depth as u64 != st["depth"].as_u64().unwrap() {
+                    let cut = |j: &J| {
+                        let t = j.to_string();
+                        if t.len() > 700 { format!("{}...", &t[..700]) } else { t }
+                    };
+                    return Err(format!("step {} ({} {}): tree shape differs from the specification's [transitions {}]: depth {} / {}; implementation {} specification {}",
+                        i + 1, st["a"].as_str().unwrap(), k, st["tags"], depth, st["depth"], cut(&shape), cut(&st["shape"])))
+                }
+            }
+            // the ordered-map meaning at the end: iteration yields exactly the keys of the final shape, in order
+            fn flat(n: &J, out: &mut Vec<i64>) {
+                let s = n["s"].as_array().unwrap();
+                let c = n["c"].as_array().unwrap();
+                for i in 0..=s.len() {
+                    if let Some(ch) = c.get(i) {
+                        flat(ch, out);
+                    }
+                    if i < s.len() {
+                        out.push(s[i].as_i64().unwrap());
+                    }
+                }
+            }
+            if let Some(last) = steps.last() {
+                let mut want = Vec::new();
+                flat(&last["shape"], &mut want);
+                let mut it = db.iter(0).map_err(|e| format!("iter: {e}"))?;
+                let mut got = Vec::new();
+                while let Some((k, _)) = it.next().map_err(|e| format!("next: {e}"))? {
+                    got.push(bt_rank(&k));
+                }
+                if got != want {
+                    return Err(format!("iteration at the end yields {got:?}, the tree of the specification holds {want:?}"))
+                }
+            }
+            Ok(())
+        })();
+        if let Err(e) = r {
+            viol.push(json!({"step": 0, "a": "BTree", "what": e}));
+        }
+        nviol += viol.len();
+        writeln!(outf, "{}", json!({"i": idx, "nontrivial": true, "shapes_compared": compared.get(), "violations": viol})).unwrap();
+        let _ = std::fs::remove_dir_all(&dir);
+    }
+    let _ = std::fs::remove_dir_all(&root);
+    if nviol > 0 {
+        1
+    } else {
+        0
+    }
+}
+
 // ---------------------------------------------------------------------------
 // PageSearch (C19)
 
